@@ -64,6 +64,8 @@ public class JHarness {
       for (Method m : Xraylib.class.getMethods()) if (Modifier.isStatic(m.getModifiers()) && m.getDeclaringClass() == Xraylib.class) System.out.println(m.getName() + " " + m.getParameterCount());
       return;
     }
+    // a crystal object is obtained once per distinct token and then reused for every later call, as a program using the library would do
+    Map<String, Crystal_Struct> crystals = new HashMap<>();
     Map<String, List<Method>> methods = new HashMap<>();
     for (Method m : Xraylib.class.getMethods()) if (Modifier.isStatic(m.getModifiers())) methods.computeIfAbsent(m.getName(), k -> new ArrayList<>()).add(m);
     BufferedReader in = new BufferedReader(new InputStreamReader(new FileInputStream(argv[0]), StandardCharsets.ISO_8859_1));
@@ -90,8 +92,11 @@ public class JHarness {
           else if (pt[i] == String.class) { if (t.equals("NULL")) { skip = true; } else args[i] = unhex(t.substring(2)); }
           else if (pt[i] == Crystal_Struct.class) {
             if (t.equals("cNULL")) skip = true;
-            else if (t.startsWith("c:")) args[i] = Xraylib.Crystal_GetCrystal(unhex(t.substring(2)));
-            else args[i] = userCrystal(t);
+            else {
+              Crystal_Struct cs = crystals.get(t);
+              if (cs == null) { cs = t.startsWith("c:") ? Xraylib.Crystal_GetCrystal(unhex(t.substring(2))) : userCrystal(t); crystals.put(t, cs); }
+              args[i] = cs;
+            }
           }
           else { skip = true; }
         }
